@@ -67,6 +67,7 @@ namespace vsim
         double p_spurious = 0.0;        // per decision, while some thread waits on a cv
         int max_spurious = 4;           // faults stop eventually: at most this many per run
         double preempt_density = 0.0;   // per function-boundary point
+        double preempt_burst = 0.0;     // probability that the next preemption gap is drawn from [1, 24] points
         int stall_max = 0;              // >0: stall a random victim for up to this many decisions
         double p_stall = 0.0;           // probability per decision to start a stall
         int start_delay_max = 0;        // withhold freshly spawned threads for up to N decisions
